@@ -465,7 +465,8 @@ def build_doc(doc):
             el['parent'] = head
             head['kids'].append(el)
     case = dict(html='<!DOCTYPE html>' + html_text(html), ua_css=ua_css, user_css=user_css, files=files,
-                media=doc['device'], hints=doc['hints'], keys=[PROPS[p]['key'] for p in doc['props']])
+                media=doc['device'], hints=doc['hints'], keys=[PROPS[p]['key'] for p in doc['props']],
+                render=doc.get('render', True))
     doc['files_items'] = files_items
     return case
 
@@ -607,6 +608,7 @@ def reference(doc, case):
         attrs_out[e['n']] = lst
     # ---- winners, then inheritance top-down
     expected = {}
+    decided = dict(single=0, origin=0, specificity=0, order=0, none=0, keyword=0)
 
     def resolve(n, pseudo, parent_vals):
         vals = {}
@@ -614,9 +616,21 @@ def reference(doc, case):
             c = cands.get((n, pseudo), {}).get(p)
             inh = PROPS[p]['inh']
             if c:
-                vid = max(c, key=lambda kv: kv[0])[1]
+                top = sorted(c, key=lambda kv: kv[0])
+                vid = top[-1][1]
+                if len(top) == 1:
+                    decided['single'] += 1
+                elif top[-1][0][0] != top[-2][0][0]:
+                    decided['origin'] += 1
+                elif top[-1][0][1] != top[-2][0][1]:
+                    decided['specificity'] += 1
+                else:
+                    decided['order'] += 1
+                if vid < 0:
+                    decided['keyword'] += 1
             else:
                 vid = -1 if inh else -2
+                decided['none'] += 1
             if vid == -1:
                 vid = parent_vals[p] if parent_vals is not None else 0
             elif vid == -2:
@@ -633,7 +647,7 @@ def reference(doc, case):
         for k in e['kids']:
             down(k, vals)
     down(doc['html'], None)
-    return dict(expected=expected, sheets=sheets_out, attrs=attrs_out, selfcheck=selfcheck)
+    return dict(expected=expected, sheets=sheets_out, attrs=attrs_out, selfcheck=selfcheck, decided=decided)
 
 
 # ---------------------------------------------------------------------------------------------- Coq terms
@@ -936,7 +950,10 @@ def run_cascade_stream(run, name, docs, thorough):
     n_el = n_decided = 0
     skipped = 0
     selfbad = []
-    stats = dict(important=0, attr=0, hint=0, pseudo=0, inherit_kw=0, media=0, imports=0, inherited_hits=0)
+    stats = dict(style_attrs=0, hint_attrs=0, pseudo_elements=0, fetched_sheets=0, decided_by_origin=0,
+                 decided_by_specificity=0, decided_by_order=0, single_candidate=0, no_declaration=0,
+                 inherit_initial_keyword_wins=0)
+    keys = []
     failures = 0
     for d, c, (st, o) in zip(docs, cases, outs):
         if st != 'ok':
@@ -974,12 +991,20 @@ def run_cascade_stream(run, name, docs, thorough):
         coq_cases.append(coq_tree_case(d, ref, obs))
         kept.append((d, c))
         for e in d['els']:
-            stats['attr'] += bool(e['style'])
-            stats['hint'] += bool(e['hints']) and d['hints']
-        stats['pseudo'] += sum(1 for k in obs if k[1] == 'before')
-        stats['imports'] += len(c['files'])
-        run.distinct.add((name, c['html'][:400], json.dumps(c['files'], sort_keys=True)[:300], c['ua_css'][-200:],
-                          tuple(c['user_css'])))
+            stats['style_attrs'] += bool(e['style'])
+            stats['hint_attrs'] += bool(e['hints']) and d['hints']
+        stats['pseudo_elements'] += sum(1 for k in obs if k[1] == 'before')
+        stats['fetched_sheets'] += len(c['files'])
+        dc = ref['decided']
+        stats['decided_by_origin'] += dc['origin']
+        stats['decided_by_specificity'] += dc['specificity']
+        stats['decided_by_order'] += dc['order']
+        stats['single_candidate'] += dc['single']
+        stats['no_declaration'] += dc['none']
+        stats['inherit_initial_keyword_wins'] += dc['keyword']
+        if dc['origin'] + dc['specificity'] + dc['order']:
+            keys.append(json.dumps([c['html'], c['files'], c['ua_css'], c['user_css'], c['media'], c['hints']],
+                                   sort_keys=True))
     run.oblige('selftest:%s own matcher and specificity agree with cssselect2' % name, not selfbad, str(selfbad[:3]))
     try:
         masks = common.eval_cases('c06' + name.replace('-', ''), PRE,
@@ -994,7 +1019,7 @@ def run_cascade_stream(run, name, docs, thorough):
                      {'stream': name, 'case': c, 'doc': slim(d)}, signature='c06-cascade-mismatch')
     except RuntimeError as exc:
         run.oblige('corr:%s' % name, False, str(exc))
-    run.count(name, len(kept), [], samples=[kept[0][1]['html'][:500]] if kept else [])
+    run.count(name, len(kept), keys, samples=[kept[0][1]['html'][:500]] if kept else [])
     run.stream_info(name, elements=n_el, decided_values=n_decided, discarded_docs=skipped, **stats)
     return kept
 
@@ -1126,13 +1151,15 @@ def coq_direct(fn, c, st, o):
     raise ValueError(fn)
 
 
-def run_direct(run, rng, thorough):
+def run_direct(run, rng, thorough, extra=()):
+    """extra: (fn, case) pairs run in the same worker pool; their results are returned"""
     cases = gen_direct(rng, thorough)
     by_fn = {}
     for fn, c, _ in cases:
         by_fn.setdefault(fn, []).append(c)
     flat = [(fn, c) for fn, cs in by_fn.items() for c in cs]
-    res = common.run_impl('impl_c06', 'direct', flat, chunksize=32)
+    res = common.run_impl('impl_c06', 'direct', list(extra) + flat, chunksize=16, limit=60)
+    extra_res, res = res[:len(extra)], res[len(extra):]
     results, k = {}, 0
     for fn, cs in by_fn.items():
         results[fn] = res[k:k + len(cs)]
@@ -1184,6 +1211,7 @@ def run_direct(run, rng, thorough):
     run.stream_info('values-direct', rule='length / font_size / line_height with Fraction stubs: random rationals, all '
                     '12 units, keywords, larger/smaller around every table boundary; font_weight exhaustive over the '
                     '9 valid parent weights + root x 7 values')
+    return extra_res
 
 
 # ---------------------------------------------------------------------------------------------- values through renders
@@ -1407,7 +1435,7 @@ def judge_values(nodes, obs):
 
 
 def run_values_render(run, rng, thorough):
-    docs = [gen_values_doc(rng) for _ in range(1200 if thorough else 260)]
+    docs = [gen_values_doc(rng) for _ in range(2500 if thorough else 200)]
     cases = [values_case(nodes, via_rules=(i % 3 == 0)) for i, nodes in enumerate(docs)]
     outs = common.run_impl('impl_c06', 'render_styles', cases, limit=60)
     coq_all, n_el, keys = [], 0, []
@@ -1442,7 +1470,8 @@ def run_values_render(run, rng, thorough):
             for b in bad[:1]:
                 run.fail('values-render: element data-n=%s %s: %r computes to %r, expected %r (%s)' % (
                     b[0], b[1], b[2], b[4], b[3], where),
-                    {'stream': 'values-render', 'case': c, 'element': b[0], 'prop': b[1], 'declared': str(b[2]),
+                    {'stream': 'values-render', 'case': c, 'nodes': json.loads(json.dumps(nodes, default=str)),
+                     'element': b[0], 'prop': b[1], 'declared': str(b[2]),
                      'expected': str(b[3]), 'got': b[4], 'all': [str(x) for x in bad[:8]]},
                     signature=(b[5] if len(b) > 5 and b[5] else 'c06-values-mismatch'))
         keys.append(c['html'][:600])
@@ -1531,7 +1560,7 @@ def page_flatten(items, device):
 
 
 def run_page_render(run, rng, thorough):
-    docs = [gen_page_doc(rng) for _ in range(600 if thorough else 150)]
+    docs = [gen_page_doc(rng) for _ in range(1200 if thorough else 150)]
     cases = []
     for d in docs:
         files, counter, user, ua, head, li = {}, [0], [], UA_BASE, '', 0
@@ -1610,6 +1639,32 @@ def run_page_render(run, rng, thorough):
 
 # =============================================================================================== check
 
+def obs_values(o):
+    obs = {}
+    for key, vals in o['direct'].items():
+        n, pseudo = key.split('|')
+        if not pseudo:
+            obs[int(n)] = dict(zip(['fs', 'ml', 'lh', 'fw', 'ti'], vals))
+    return obs
+
+
+def corpus_items():
+    return [json.load(open(p)) for p in sorted(glob.glob(os.path.join(common.VERIF, 'corpus', 'C06', '*.json')))]
+
+
+def run_corpus(run, items, outs):
+    """minimised witnesses of earlier findings: {'case': render case, 'expect': {"n|pseudo": [normalized values]}}"""
+    for it, (st, o) in zip(items, outs):
+        got = o['direct'] if st == 'ok' else None
+        bad = st != 'ok' or any(got.get(k) != v or o['boxes'].get(k, v) != v for k, v in it['expect'].items())
+        if bad:
+            run.fail('corpus %s: %s; expected %s, got %s' % (it['name'], it['what'], it['expect'],
+                                                             {k: (got or {}).get(k) for k in it['expect']}),
+                     {'stream': 'corpus', 'item': it, 'outcome': o if st != 'ok' else None}, signature=it.get('signature'))
+    run.count('corpus', len(items), [it['name'] for it in items])
+    run.stream_info('corpus', rule='minimised witnesses of the findings of this property, replayed first')
+
+
 def check(run):
     rng = random.Random(run.seed * 7919 + 6)
     thorough = run.tier == 'thorough'
@@ -1623,21 +1678,20 @@ def check(run):
                         '(library contract; the render streams would show a deviation)',
                         'var() pending values, text-decoration propagation, `page`, custom properties: not modelled (C07)',
                         'user-agent !important is ranked like user-agent normal (CSS 2.1 five levels, as the property states)']
-    # replay the corpus first
-    for p in sorted(glob.glob(os.path.join(common.VERIF, 'corpus', 'C06', '*.json'))):
-        pass
     clock = [time.time()]
 
     def lap(stream):
         run.stream_info(stream, seconds=round(time.time() - clock[0], 1))
         clock[0] = time.time()
     run.stream_info('proofs', seconds=round(time.time() - run.t0, 1))
-    # ---- direct streams
-    run_direct(run, rng, thorough)
+    # ---- the corpus and the direct streams (one worker pool)
+    items = corpus_items()
+    outs = run_direct(run, rng, thorough, [('render_styles', it['case']) for it in items])
+    run_corpus(run, items, outs)
     lap('values-direct')
     # ---- random documents
     attr_case = finding_listed('c06-stylesheet-attr-case')
-    docs = [gen_doc(rng, attr_case) for _ in range(2000 if thorough else 420)]
+    docs = [gen_doc(rng, attr_case) for _ in range(4000 if thorough else 420)]
     run_cascade_stream(run, 'cascade-render', docs, thorough)
     lap('cascade-render')
     run.stream_info('cascade-render', rule='random DOM (<= 12 elements) x 1..8 rules over UA / user / author (<style> in '
@@ -1654,9 +1708,10 @@ def check(run):
                 tdocs.append(tuple_doc((a, b), tgt, layout))
     triples = list(itertools.product(K, K, K))
     if not thorough:
-        triples = rng.sample(triples, 1400)
+        triples = rng.sample(triples, 1000)
     for i, t in enumerate(triples):
         tdocs.append(tuple_doc(t, 'div' if i % 2 else 'p', (i // 2) % 2))
+        tdocs[-1]['render'] = thorough      # quick tier: triples are judged on the renderer's style function only
     for k in K:
         tdocs.append(tuple_doc((k,), 'div', 0))
     run_cascade_stream(run, 'cascade-tuples', tdocs, thorough)
@@ -1669,29 +1724,59 @@ def check(run):
                     rule='all ordered pairs (x 2 targets x 2 sheet layouts) and %s ordered triples of %d declaration '
                     'kinds (origin x container x selector specificity x importance, style attribute, presentational '
                     'hint as attribute or hints sheet) for text-align on one element' %
-                    ('all' if thorough else 'a seeded sample of 1400 of the 5832', len(KINDS)))
+                    ('all' if thorough else 'a seeded sample of 1000 of the 5832', len(KINDS)))
 
 
 def replay(data):
     d = data.get('data', {})
-    if 'case' in d and d.get('stream', '').startswith('cascade'):
+    stream = d.get('stream', '')
+    if stream == 'corpus':
+        it = d['item']
+        (st, o), = common.run_impl('impl_c06', 'render_styles', [it['case']])
+        got = o['direct'] if st == 'ok' else None
+        print('replay corpus', it['name'], 'expected', it['expect'], 'got', got if st == 'ok' else o)
+        return 1 if st != 'ok' or any(got.get(k) != v for k, v in it['expect'].items()) else 0
+    if stream.startswith('cascade') and 'case' in d:
         (st, o), = common.run_impl('impl_c06', 'render_styles', [d['case']])
-        print('replay:', st, json.dumps(o)[:1500])
         if st != 'ok':
+            print('replay:', st, o)
             return 1
         df = d.get('diff')
-        if df:
-            key = '%s|%s' % (df['element'], df['pseudo'])
-            print('expected id', df['expected'], 'for', df['prop'], '; now:', o['direct'].get(key), o['boxes'].get(key))
-        return 1
-    if d.get('stream') in ('values-direct', 'prec-direct'):
+        if not df:
+            print('replay: no recorded difference;', json.dumps(o)[:800])
+            return 1
+        key = '%s|%s' % (df['element'], df['pseudo'])
+        idx = d['doc']['props'].index(df['prop'])
+        now = [PROPS[df['prop']]['dec'](src[key][idx]) for src in (o['direct'], o['boxes']) if key in src]
+        print('replay: element %s property %s: cascade selects id %s, implementation has %s' % (
+            key, df['prop'], df['expected'], now))
+        return 1 if any(x != df['expected'] for x in now) else 0
+    if stream == 'values-render' and 'nodes' in d:
+        (st, o), = common.run_impl('impl_c06', 'render_styles', [d['case']])
+        if st != 'ok':
+            print('replay:', st, o)
+            return 1
+        bad, _ = judge_values(d['nodes'], obs_values(o))
+        print('replay:', [str(b) for b in bad[:5]])
+        return 1 if bad else 0
+    if stream == 'page-render' and 'case' in d:
+        (st, o), = common.run_impl('impl_c06', 'render_styles', [d['case']])
+        print('replay: pages', o.get('pages') if st == 'ok' else o, 'expected', d.get('expected'), 'for', d.get('prop'),
+              'on page', d.get('page'))
+        if st != 'ok':
+            return 1
+        keys = d['case']['page_keys']
+        got = _dec_px(o['pages'][d['page']][keys.index(d['prop'].replace('-', '_'))])
+        return 1 if got != d['expected'] else 0
+    if stream in ('values-direct', 'prec-direct'):
         if 'fn' in d:
             (st, o), = common.run_impl('impl_c06', d['fn'], [d['case']])
             print('replay:', st, o)
-            m = common.eval_cases('c06replay', PRE, 'dcase',
-                                  [coq_direct(d['fn'], d['case'], st, o)], 'judge_direct')
+            if st != 'ok':
+                return 1
+            m = common.eval_cases('c06replay', PRE, 'dcase', [coq_direct(d['fn'], d['case'], st, o)], 'judge_direct')
             print('judge mask', m)
             return 1 if m[0] else 0
         return 1
-    print('nothing to replay for', d.get('stream'))
+    print('nothing to replay for', stream)
     return 0
